@@ -1,7 +1,7 @@
 #!/usr/bin/env python3
 import json, sys
 pid, wt, out = sys.argv[1], sys.argv[2], sys.argv[3]
-tpl = open("/tmp/prompts/harmless_template.md").read()
+tpl = open("/verif/tools/prompts/harmless_template.md").read()
 for l in open("/verif/properties.jsonl"):
     p = json.loads(l)
     if p["id"] == pid:
